@@ -217,9 +217,18 @@ func rpc(c *harness.Ctx) {
 		n := 1 + c.Choose(4, "ncalls")
 		for i := 0; i < n; i++ {
 			rd := w.res[c.Choose(len(w.res), "callres")]
-			if call := w.planCall(rd, nil); call != nil {
+			var only func(string) bool
+			if c.Cfg["methods"] == "batch" {
+				only = isBatchKeyed
+			} else if c.Cfg["methods"] == "excl" {
+				only = func(m string) bool { return excludedFor(rd, m) != nil }
+			}
+			if call := w.planCall(rd, only); call != nil {
 				if c.Cfg["outcomes"] == "errors" {
 					w.drawOutcome(call, sharedErrs)
+				}
+				if c.Cfg["keys"] == "adv" {
+					w.adversarialKeys(call)
 				}
 				if c.Cfg["route"] == "damage" && c.Choose(2, "damage?") == 1 {
 					damagePath(c, w, call)
@@ -383,6 +392,21 @@ func checkCall(c *harness.Ctx, w *World, call *Call, world string) {
 		e := call.Exchanges[0]
 		if len(call.Inv) > 0 || e.Status != 400 {
 			c.Fail("C05", "post-without-header", fmt.Sprintf("post-without-header:%s:%d", methodClass(call, w), e.Status), "%s: a POST to a collection without X-RestLi-Method must be answered 400 without touching resource code; status %d, invocations %d", where, e.Status, len(call.Inv))
+		}
+		return
+	}
+	if call.wantDupReject {
+		if call.Err == nil || len(call.Exchanges) > 0 {
+			c.Fail("C16", "duplicate-not-refused", "duplicate-not-refused:"+call.Method, "%s: duplicate keys (under key equality) must be rejected before any request is sent; err=%v exchanges=%d", where, call.Err, len(call.Exchanges))
+		} else {
+			c.Probe("duplicate-key-rejected")
+		}
+		return
+	}
+	if call.superset && !anyFault(call) {
+		c.Probe("batch-superset-reply")
+		if call.Err == nil {
+			c.Fail("C16", "unrequested-key-accepted", "unrequested-key-accepted:"+call.Method, "%s: the response mentions a key that was never requested; the client must return an error, it returned %s", where, renderArgs(call.Rets))
 		}
 		return
 	}
